@@ -5,27 +5,29 @@ import os
 import subprocess
 
 VERIF = os.path.dirname(os.path.dirname(os.path.abspath(__file__)))
+import importlib
+import sys
+sys.path.insert(0, VERIF)
 
-CLAIMED = {
-    "C17": {
-        "text": "Machine-checked proof (Coq 8.16.1) over an executable Gallina model of the text codec: "
-                "round trip under the exact boolean side condition wf_log, conformance of every serialised wf log "
-                "to the published grammar, rejection of texts without a divider, and totality (never panics) for ALL "
-                "texts; the full-strength statement is proved false (C17_full_statement_refuted) and the excluded "
-                "logs are listed known findings. The model is tied to the source by the translator (quoting chars, "
-                "divider, indent, guard) and by differential runs against the Rust codec on structured logs and "
-                "arbitrary text, plus an exhaustive comparison of the whitespace table over all scalar values.",
-        "design_ref": "DESIGN.md §4 C17",
-        "note": "Trusted: Coq kernel; translator; ExtrOcamlBasic extraction + driver; harness. serde_json printing/parsing of "
-                "the metadata object is an environment hypothesis (md_ok, parse∘print = id) monitored on every generated log.",
-        "technique": "Coq proof over extracted model + translator-regenerated tables + differential correspondence",
-    },
-}
+
+def load_claims():
+    """Each finished property module vlib/cXX.py carries a CLAIM dict
+    {text, design_ref, note, technique}."""
+    out = {}
+    for i in range(1, 21):
+        pid = "C%02d" % i
+        if os.path.exists(os.path.join(VERIF, "vlib", pid.lower() + ".py")):
+            m = importlib.import_module("vlib." + pid.lower())
+            if getattr(m, "CLAIM", None):
+                out[pid] = m.CLAIM
+    return out
+
 
 NOT_YET = {}
 
 
 def main():
+    CLAIMED = load_claims()
     props = [json.loads(l) for l in open(os.path.join(VERIF, "properties.jsonl"))]
     hooks = subprocess.run(["git", "-C", "/repo", "log", "--format=%H %s", "25cf8d60..HEAD"],
                            capture_output=True, text=True).stdout.splitlines()
